@@ -11,6 +11,7 @@ import (
 	"math/big"
 	"math/rand"
 	"os"
+	"reflect"
 	"strconv"
 	"testing"
 )
@@ -22,6 +23,44 @@ func vfLimbs(v *big.Int) []int {
 	hi := new(big.Int).Rsh(v, 16)
 	lo := new(big.Int).And(v, big.NewInt(0xffff))
 	return []int{int(hi.Int64()), int(lo.Int64())}
+}
+
+// vfBigOf reads an integer whatever its representation (*big.Int, big.Int, any sized int / uint)
+func vfBigOf(v reflect.Value) *big.Int {
+	if !v.IsValid() {
+		return big.NewInt(-1)
+	}
+	switch v.Kind() {
+	case reflect.Int, reflect.Int8, reflect.Int16, reflect.Int32, reflect.Int64:
+		return big.NewInt(v.Int())
+	case reflect.Uint, reflect.Uint8, reflect.Uint16, reflect.Uint32, reflect.Uint64:
+		return new(big.Int).SetUint64(v.Uint())
+	case reflect.Ptr, reflect.Interface:
+		if v.IsNil() {
+			return big.NewInt(-1)
+		}
+		if v.CanInterface() {
+			if b, ok := v.Interface().(*big.Int); ok {
+				return new(big.Int).Set(b)
+			}
+		} else if v.Type() == reflect.TypeOf((*big.Int)(nil)) {
+			return new(big.Int).Set((*big.Int)(v.UnsafePointer()))
+		}
+		return vfBigOf(v.Elem())
+	case reflect.Struct:
+		if v.Type() == reflect.TypeOf(big.Int{}) && v.CanAddr() {
+			return new(big.Int).Set((*big.Int)(v.Addr().UnsafePointer()))
+		}
+	}
+	return big.NewInt(-1)
+}
+
+func vfBigField(it interface{}, name string) *big.Int {
+	v := reflect.ValueOf(it)
+	for v.Kind() == reflect.Ptr {
+		v = v.Elem()
+	}
+	return vfBigOf(v.FieldByName(name))
 }
 
 func vfBitsOf(v *big.Int) []int {
@@ -52,7 +91,8 @@ func vfRangeIterEvent(n int64, seed int64, keep int, summaryLimit int64) map[str
 	if err != nil {
 		return ev
 	}
-	ev["P"], ev["G"] = vfLimbs(it.P), vfLimbs(it.G)
+	ev["P"], ev["G"] = vfLimbs(vfBigField(it, "P")), vfLimbs(vfBigField(it, "G"))
+	intM, nextM := reflect.ValueOf(it).MethodByName("Int"), reflect.ValueOf(it).MethodByName("Next")
 	outs := [][]int{}
 	full := n <= summaryLimit
 	var seen []uint64
@@ -62,7 +102,7 @@ func vfRangeIterEvent(n int64, seed int64, keep int, summaryLimit int64) map[str
 	var count, distinct int64
 	min, max := int64(math.MaxInt64), int64(0)
 	for {
-		v := new(big.Int).Set(it.Int())
+		v := vfBigOf(intM.Call(nil)[0])
 		if len(outs) < keep {
 			outs = append(outs, vfLimbs(v))
 		}
@@ -89,7 +129,7 @@ func vfRangeIterEvent(n int64, seed int64, keep int, summaryLimit int64) map[str
 		} else if len(outs) >= keep {
 			break
 		}
-		if !it.Next() {
+		if !nextM.Call(nil)[0].Bool() {
 			if !full {
 				ev["complete"] = true
 			}
@@ -115,8 +155,21 @@ func TestVfRangeIter(t *testing.T) {
 	seed, _ := strconv.ParseInt(os.Getenv("VERIF_SEED"), 10, 64)
 	thorough := os.Getenv("VERIF_TIER") == "thorough"
 	rows := [][][]int{}
-	for _, g := range cyclicGroups {
-		rows = append(rows, [][]int{vfLimbs(big.NewInt(g.P)), vfLimbs(big.NewInt(g.G)), vfLimbs(big.NewInt(g.N))})
+	// the table is read by reflection: the representation (field types, an exponent column or none) is the code's business
+	var rowP []int64
+	tbl := reflect.ValueOf(cyclicGroups)
+	for i := 0; i < tbl.Len(); i++ {
+		g := tbl.Index(i)
+		if g.Kind() == reflect.Ptr {
+			g = g.Elem()
+		}
+		pp, gg := vfBigOf(g.FieldByName("P")), vfBigOf(g.FieldByName("G"))
+		nn := big.NewInt(1) // no exponent column: the generator is used as it is (exponent 1); the walk is judged on the iterator's own G
+		if f := g.FieldByName("N"); f.IsValid() {
+			nn = vfBigOf(f)
+		}
+		rows = append(rows, [][]int{vfLimbs(pp), vfLimbs(gg), vfLimbs(nn)})
+		rowP = append(rowP, pp.Int64())
 	}
 	out.write([]map[string]interface{}{{"ev": "Table", "rows": rows}})
 	rnd := rand.New(rand.NewSource(seed*6700417 + 1))
@@ -140,10 +193,10 @@ func TestVfRangeIter(t *testing.T) {
 	}
 	// (ii) every row boundary, the bad sizes, the top of the table: chosen row, randomised generator, start, first outputs
 	keep := 60
-	for _, g := range cyclicGroups {
+	for _, gP := range rowP {
 		for _, d := range []int64{-2, -1, 0, 1} {
 			for k := 0; k < 3; k++ {
-				emit(g.P+d, seed*10+int64(k), keep, 6000)
+				emit(gP+d, seed*10+int64(k), keep, 6000)
 			}
 		}
 	}
